@@ -4,6 +4,8 @@
 mod bind;
 mod harness;
 mod world;
+#[cfg(any(feature = "c05", feature = "c06"))]
+mod progs;
 #[cfg(feature = "c01")]
 mod c01;
 #[cfg(feature = "c02")]
